@@ -167,7 +167,7 @@ def run(pid, tier):
     # a few scenarios also record the internal hook events for validation against RunImpl (model binding)
     if pid != "C16":
         for sc in scenarios[:: max(1, len(scenarios) // (10 if tier == "quick" else 120))]:
-            if sc["mode"] != "changed":
+            if sc["mode"] != "changed" and not sc.get("trust"):
                 sc["hook_trace"] = True
     results = run_all(bins, scenarios, workers=6 if pid == "C16" else 12)
     records, tool_errors = [], 0
@@ -198,8 +198,22 @@ def run(pid, tier):
             cfg = ("CONSTANTS PlanSet <- TracePlanSet\n TolerateClosed = TRUE\n CanFail = TRUE\n BarrierMode = FALSE\n"
                    "SPECIFICATION TSpec\nINVARIANT NotAccepted\nCHECK_DEADLOCK FALSE\n")
             jobs.append(dict(module="trace/RunImplTrace", cfg_text=cfg, workers=1, timeout=300, env={"TRACE": pth}, xmx="2g", deque=True))
-        res = vlib.tlc_parallel(jobs, max_parallel=8)
+        # this validation only ever yields a MODEL-DRIFT note: a search that does not finish in time is recorded as
+        # "not validated", never as a failure of the check
+        from concurrent.futures import ThreadPoolExecutor as _TPE
+        def _safe(j):
+            try:
+                return vlib.tlc(**j)
+            except vlib.ToolError:
+                return None
+        with _TPE(max_workers=8) as _ex:
+            res_all = list(_ex.map(_safe, jobs))
         shutil.rmtree(tmp, ignore_errors=True)
+        timed_out = sum(1 for r in res_all if r is None)
+        traces = [t for t, r in zip(traces, res_all) if r is not None]
+        res = [r for r in res_all if r is not None]
+        if timed_out:
+            chk.cov["internal_traces_not_validated_in_time"] = timed_out
         accepted = sum(1 for r in res if "NotAccepted" in r.violated)
         drift = [traces[i][0] for i, r in enumerate(res) if "NotAccepted" not in r.violated]
         for r in res:
